@@ -4,7 +4,24 @@ HASH_TB = "SHA-256 modelled as a free term algebra (collision-free, leaf/inner-n
 
 LOG_TB = "sqlite modelled as a list of rows with insertion order, a transaction as atomic; a log file as the list of its records; FormatStream / SQL iteration tied by the correspondence run only"
 
+CODEC_TB = "binary-stream 10 primitives modelled byte-exactly (LE integers, u32 length prefixes, 16 MiB guard before allocation); UTF-8 validity is the executable String.fromUTF8? and opaque in proofs; serde_json payload of DeviceEvent::Trust outside the model"
+
 PROPS = {
+    "C14": {
+        "lean": ["SosModel.Props.C14"],
+        "runs": [{"crate": "hcore", "domain": "codec"}],
+        "classes": r"roundtrip|encode-not-deterministic",
+        "trusted_base": [CODEC_TB, "translator tools/translate.py copies tag tables, decoder arms, flag mask, size cap from the source on every run"],
+        "assumptions": ["modelled types: UtcDateTime, CommitHash, CommitProof, CommitState, Comparison, AeadPack, VaultEntry, VaultCommit, EventKind, WriteEvent, AccountEvent, DeviceEvent::Revoke, FileEvent, EventRecord; other types (vault header/contents, secrets, protobuf wire bindings) are not yet in the model"],
+    },
+    "C15": {
+        "lean": ["SosModel.Props.C15"],
+        "runs": [{"crate": "hcore", "domain": "codec"}],
+        "classes": r"decode-panics|decode-allocation",
+        "trusted_base": [CODEC_TB, "allocation requests measured by a tracking global allocator in the harness (single request above 16 MiB + 64 KiB slack is a failure; >= 1 GiB stops the run)"],
+        "assumptions": ["decoders in the model: the core binary format listed for C14; FormatStream iteration, archives, pairing URLs, bearer tokens and HTTP handlers are not yet in the model",
+                        "partial: allocator abort behaviour and stack depth are runtime properties the model cannot exhibit"],
+    },
     "C06": {
         "lean": ["SosModel.Props.C06"],
         "runs": [{"crate": "hbackend", "domain": "log"}],
